@@ -122,12 +122,18 @@ fn assemble_with_command(
 {
 	if command.show_help
 	{
+		#[cfg(hlorenzi_customasm_verif)]
+		crate::verif::emit("help", vec![]);
+
 		print_usage(command.use_colors);
 		return Ok(asm::AssemblyResult::new());
 	}
 
 	if command.show_version
 	{
+		#[cfg(hlorenzi_customasm_verif)]
+		crate::verif::emit("version", vec![]);
+
 		print_version_full();
 		return Ok(asm::AssemblyResult::new());
 	}
@@ -173,6 +179,17 @@ fn assemble_with_command(
 				output,
 				format);
 
+			#[cfg(hlorenzi_customasm_verif)]
+			crate::verif::emit("formatted", vec![
+				("print", crate::verif::V::B(output_group.printout)),
+				("file", match output_group.output_filename
+				{
+					Some(ref f) => crate::verif::V::S(f.clone()),
+					None => crate::verif::V::Null,
+				}),
+				("len", crate::verif::V::I(formatted.len() as i128)),
+			]);
+
 			if output_group.printout
 			{
 				if !command.quiet
@@ -207,6 +224,9 @@ fn assemble_with_command(
 			iterations_taken,
 			if iterations_taken == 1 { "" } else { "s" });
 	}
+
+	#[cfg(hlorenzi_customasm_verif)]
+	crate::verif::emit("drive_ok", vec![]);
 
 	Ok(assembly)
 }
@@ -441,7 +461,80 @@ fn parse_command(
 	}
 
 
+	#[cfg(hlorenzi_customasm_verif)]
+	crate::verif::emit("command", vec![
+		("inputs", crate::verif::V::L(command.input_filenames.iter()
+			.map(|f| crate::verif::V::S(f.clone())).collect())),
+		("groups", crate::verif::V::L(command.output_groups.iter()
+			.map(|g| crate::verif::V::O(vec![
+				("format", match g.format
+				{
+					Some(f) => verif_format(f),
+					None => crate::verif::V::Null,
+				}),
+				("print", crate::verif::V::B(g.printout)),
+				("file", match g.output_filename
+				{
+					Some(ref f) => crate::verif::V::S(f.clone()),
+					None => crate::verif::V::Null,
+				}),
+			])).collect())),
+		("quiet", crate::verif::V::B(command.quiet)),
+		("colors", crate::verif::V::B(command.use_colors)),
+		("version", crate::verif::V::B(command.show_version)),
+		("help", crate::verif::V::B(command.show_help)),
+		("budget", crate::verif::V::I(command.opts.max_iterations as i128)),
+		("debug_iters", crate::verif::V::B(command.opts.debug_iterations)),
+		("opt_static", crate::verif::V::B(command.opts.optimize_statically_known)),
+		("opt_matcher", crate::verif::V::B(command.opts.optimize_instruction_matching)),
+		("defines", crate::verif::V::L(command.opts.driver_symbol_defs.iter()
+			.map(|d| crate::verif::V::O(vec![
+				("name", crate::verif::V::S(d.name.clone())),
+				("value", crate::verif::value_of(&d.value)),
+			])).collect())),
+	]);
+
 	Ok(command)
+}
+
+
+#[cfg(hlorenzi_customasm_verif)]
+fn verif_format(format: OutputFormat) -> crate::verif::V
+{
+	use crate::verif::V;
+
+	let (name, base, group, unit): (&str, Option<usize>, Option<usize>, Option<usize>) = match format
+	{
+		OutputFormat::Binary => ("binary", None, None, None),
+		OutputFormat::Annotated { base, group } => ("annotated", Some(base), Some(group), None),
+		OutputFormat::BinStr => ("binstr", None, None, None),
+		OutputFormat::HexStr => ("hexstr", None, None, None),
+		OutputFormat::BinDump => ("bindump", None, None, None),
+		OutputFormat::HexDump => ("hexdump", None, None, None),
+		OutputFormat::Mif => ("mif", None, None, None),
+		OutputFormat::IntelHex { address_unit } => ("intelhex", None, None, Some(address_unit)),
+		OutputFormat::DecComma => ("deccomma", None, None, None),
+		OutputFormat::HexComma => ("hexcomma", None, None, None),
+		OutputFormat::DecSpace => ("decspace", None, None, None),
+		OutputFormat::HexSpace => ("hexspace", None, None, None),
+		OutputFormat::DecC => ("decc", None, None, None),
+		OutputFormat::HexC => ("hexc", None, None, None),
+		OutputFormat::LogiSim8 => ("logisim8", None, None, None),
+		OutputFormat::LogiSim16 => ("logisim16", None, None, None),
+		OutputFormat::AddressSpan => ("addrspan", None, None, None),
+		OutputFormat::TCGame { base, group } => ("tcgame", Some(base), Some(group), None),
+		OutputFormat::Symbols => ("symbols", None, None, None),
+		OutputFormat::SymbolsMesenMlb => ("mesen-mlb", None, None, None),
+	};
+
+	let opt = |o: Option<usize>| match o { Some(v) => V::I(v as i128), None => V::Null };
+
+	V::O(vec![
+		("name", V::S(name.to_string())),
+		("base", opt(base)),
+		("group", opt(group)),
+		("addr_unit", opt(unit)),
+	])
 }
 
 
